@@ -23,23 +23,86 @@ import (
 )
 
 type kernel struct {
-	name   string
-	file   string
-	recv   string // receiver type name without * and type params ("" = plain function)
-	fn     string
-	kind   string   // ifcond | assign | return | constdecl | defaultval | callarg
-	must   []string // the expression text must contain all of these
-	mustNo []string
-	lhs    string            // assign/defaultval: text of the left-hand side
-	vars   map[string]string // Go sub-expression text -> Lean term
-	sig    string            // Lean binder list and result type
-	unit   string            // defaultval/constdecl: "dur" (nanoseconds) | "int" | "ratN" | "ratD"
-	also   []kernel          // further sites that must yield the very same Lean text
-	doc    string
+	name                 string
+	file                 string
+	recv                 string // receiver type name without * and type params ("" = plain function)
+	fn                   string
+	kind                 string   // ifcond | assign | return | constdecl | defaultval | callarg
+	must                 []string // the expression text must contain all of these
+	mustNo               []string
+	lhs                  string            // assign/defaultval: text of the left-hand side
+	vars                 map[string]string // Go sub-expression text -> Lean term
+	sig                  string            // Lean binder list and result type
+	unit                 string            // defaultval/constdecl: "dur" (nanoseconds) | "int" | "ratN" | "ratD"
+	also                 []kernel          // further sites that must yield the very same Lean text (or its syntactic negation: a guard clause)
+	noSiblings           bool              // internal: do not search sibling functions
+	trueMeansReturnsTrue bool              // the kernel is "the function returns true as its last result": an if whose body returns false holds its negation
+	doc                  string
 }
 
 var fset = token.NewFileSet()
 var files = map[string]*ast.File{}
+
+// package-level constants (name -> value expression): a literal replaced by a named constant keeps its kernel
+var consts = map[string]ast.Expr{}
+
+// locals of the function being translated that are assigned exactly once (name -> right-hand side): a condition given a
+// name (`sameKey := found && bytes.Equal(..)`; `if !sameKey`) is translated through its definition
+var locals = map[string]ast.Expr{}
+
+func collectConsts() {
+	for _, f := range files {
+		for _, d := range f.Decls {
+			if gd, ok := d.(*ast.GenDecl); ok && gd.Tok == token.CONST {
+				for _, sp := range gd.Specs {
+					vs := sp.(*ast.ValueSpec)
+					for i, n := range vs.Names {
+						if i < len(vs.Values) {
+							consts[n.Name] = vs.Values[i]
+						}
+					}
+				}
+			}
+		}
+	}
+}
+
+func collectLocals(fd *ast.FuncDecl) {
+	locals = map[string]ast.Expr{}
+	count := map[string]int{}
+	ast.Inspect(fd.Body, func(n ast.Node) bool {
+		switch x := n.(type) {
+		case *ast.AssignStmt:
+			for i, l := range x.Lhs {
+				if id, ok := l.(*ast.Ident); ok {
+					count[id.Name]++
+					if len(x.Lhs) == len(x.Rhs) {
+						locals[id.Name] = x.Rhs[i]
+					} else {
+						count[id.Name] += 10 // multi-value assignment: not a definition we can inline
+					}
+				}
+			}
+		case *ast.IncDecStmt:
+			if id, ok := x.X.(*ast.Ident); ok {
+				count[id.Name] += 10
+			}
+		case *ast.ValueSpec:
+			for i, n := range x.Names {
+				count[n.Name]++
+				if i < len(x.Values) {
+					locals[n.Name] = x.Values[i]
+				}
+			}
+		}
+		return true
+	})
+	for n, c := range count {
+		if c != 1 {
+			delete(locals, n)
+		}
+	}
+}
 
 func text(n ast.Node) string {
 	var b bytes.Buffer
@@ -122,6 +185,7 @@ func locate(k kernel) (ast.Expr, error) {
 	if err != nil {
 		return nil, err
 	}
+	collectLocals(fd)
 	var found []ast.Expr
 	ast.Inspect(fd.Body, func(n ast.Node) bool {
 		switch x := n.(type) {
@@ -148,6 +212,67 @@ func locate(k kernel) (ast.Expr, error) {
 		}
 		return true
 	})
+	if len(found) == 0 && (k.kind == "ifcond" || k.kind == "assign" || k.kind == "return") {
+		// the decision may have been given a name or moved into a return: take the largest boolean expression of the function
+		// that mentions what the kernel is about
+		var walk func(n ast.Node, insideMatch bool)
+		isBool := func(e ast.Expr) bool {
+			switch x := e.(type) {
+			case *ast.BinaryExpr:
+				switch x.Op {
+				case token.LAND, token.LOR, token.EQL, token.NEQ, token.LSS, token.LEQ, token.GTR, token.GEQ:
+					return true
+				}
+			case *ast.UnaryExpr:
+				return x.Op == token.NOT
+			}
+			return false
+		}
+		walk = func(n ast.Node, insideMatch bool) {
+			ast.Inspect(n, func(m ast.Node) bool {
+				if m == nil || m == n {
+					return true
+				}
+				if e, ok := m.(ast.Expr); ok && isBool(e) && matches(text(e), k) {
+					found = append(found, e)
+					return false // maximal: do not descend into it
+				}
+				return true
+			})
+		}
+		walk(fd.Body, false)
+		if k.trueMeansReturnsTrue && len(found) == 1 {
+			// which way round is it written? `if cond { return .., false }` holds the negation of the kernel
+			cond := found[0]
+			ast.Inspect(fd.Body, func(n ast.Node) bool {
+				if is, ok := n.(*ast.IfStmt); ok && is.Cond == cond && len(is.Body.List) > 0 {
+					if rs, ok := is.Body.List[len(is.Body.List)-1].(*ast.ReturnStmt); ok && len(rs.Results) > 0 && text(rs.Results[len(rs.Results)-1]) == "false" {
+						found[0] = negate(cond)
+					}
+				}
+				return true
+			})
+		}
+	}
+	if len(found) == 0 && !k.noSiblings && len(k.must) > 0 {
+		// the code may have been moved into a helper: look for a unique match in the other functions of the same receiver / file
+		var hits []ast.Expr
+		for _, d := range files[k.file].Decls {
+			other, ok := d.(*ast.FuncDecl)
+			if !ok || other.Body == nil || other == fd || recvName(other) != k.recv {
+				continue
+			}
+			k2 := k
+			k2.fn, k2.noSiblings = other.Name.Name, true
+			if e, err := locate(k2); err == nil {
+				hits = append(hits, e)
+			}
+		}
+		if len(hits) == 1 {
+			return hits[0], nil
+		}
+		collectLocals(fd)
+	}
 	if len(found) == 0 {
 		return nil, fmt.Errorf("no %s matching %v in %s.%s", k.kind, k.must, k.recv, k.fn)
 	}
@@ -164,6 +289,11 @@ var durUnits = map[string]int64{"time.Nanosecond": 1, "time.Microsecond": 1e3, "
 
 // evalInt evaluates integer / duration constant expressions.
 func evalInt(e ast.Expr) (int64, error) {
+	if id, ok := e.(*ast.Ident); ok {
+		if def, ok := consts[id.Name]; ok {
+			return evalInt(def)
+		}
+	}
 	switch x := e.(type) {
 	case *ast.BasicLit:
 		if x.Kind == token.INT {
@@ -209,6 +339,26 @@ func evalInt(e ast.Expr) (int64, error) {
 func toLean(e ast.Expr, vars map[string]string) (string, error) {
 	if v, ok := vars[text(e)]; ok {
 		return v, nil
+	}
+	for pat, v := range vars {
+		if strings.HasPrefix(pat, "re:") && regexp.MustCompile("^(?:"+pat[3:]+")$").MatchString(text(e)) {
+			return v, nil
+		}
+	}
+	if id, ok := e.(*ast.Ident); ok {
+		if def, ok := locals[id.Name]; ok {
+			delete(locals, id.Name) // no cycles
+			s, err := toLean(def, vars)
+			locals[id.Name] = def
+			if err == nil {
+				return "(" + s + ")", nil
+			}
+		}
+		if def, ok := consts[id.Name]; ok {
+			if s, err := toLean(def, vars); err == nil {
+				return s, nil
+			}
+		}
 	}
 	switch x := e.(type) {
 	case *ast.ParenExpr:
@@ -301,6 +451,30 @@ func ratOf(lit string) (int64, int64, error) {
 	return n, d, err
 }
 
+// negate returns the syntactic negation of a comparison / boolean expression (comparisons flipped, De Morgan).
+func negate(e ast.Expr) ast.Expr {
+	switch x := e.(type) {
+	case *ast.ParenExpr:
+		return negate(x.X)
+	case *ast.UnaryExpr:
+		if x.Op == token.NOT {
+			return x.X
+		}
+	case *ast.BinaryExpr:
+		flip := map[token.Token]token.Token{token.EQL: token.NEQ, token.NEQ: token.EQL, token.LSS: token.GEQ, token.GEQ: token.LSS, token.GTR: token.LEQ, token.LEQ: token.GTR}
+		if op, ok := flip[x.Op]; ok {
+			return &ast.BinaryExpr{X: x.X, Op: op, Y: x.Y}
+		}
+		if x.Op == token.LAND {
+			return &ast.BinaryExpr{X: negate(x.X), Op: token.LOR, Y: negate(x.Y)}
+		}
+		if x.Op == token.LOR {
+			return &ast.BinaryExpr{X: negate(x.X), Op: token.LAND, Y: negate(x.Y)}
+		}
+	}
+	return &ast.UnaryExpr{Op: token.NOT, X: e}
+}
+
 // render produces the Lean definition line(s) of a kernel.
 func render(k kernel) (string, string, error) {
 	e, err := locate(k)
@@ -323,6 +497,11 @@ func render(k kernel) (string, string, error) {
 	case "constdecl", "defaultval":
 		switch k.unit {
 		case "ratN", "ratD":
+			if id, isId := e.(*ast.Ident); isId {
+				if def, ok := consts[id.Name]; ok {
+					e = def
+				}
+			}
 			lit, ok := e.(*ast.BasicLit)
 			if !ok {
 				return "", "", fmt.Errorf("%s: not a literal: %s", k.name, goText)
@@ -383,7 +562,17 @@ func render(k kernel) (string, string, error) {
 		}
 		mine := fmt.Sprintf("def %s %s := %s", k.name, k.sig, body)
 		if !strings.HasSuffix(other, mine) {
-			return "", "", fmt.Errorf("sites disagree: %s.%s has a different expression", a.recv, a.fn)
+			// the same decision written as a guard clause (`if !(cond) { return }`) is the same decision
+			negOK := false
+			if eo, err := locate(a2); err == nil {
+				if nb, err := toLean(negate(eo), k.vars); err == nil {
+					nb = "(" + strings.TrimSuffix(strings.TrimPrefix(nb, "("), ")") + ")"
+					negOK = nb == body || strings.ReplaceAll(nb, " ", "") == strings.ReplaceAll(body, " ", "")
+				}
+			}
+			if !negOK {
+				return "", "", fmt.Errorf("sites disagree: %s.%s has a different expression", a.recv, a.fn)
+			}
 		}
 	}
 	recv := k.recv
@@ -413,6 +602,7 @@ func main() {
 		}
 		files[filepath.Base(p)] = f
 	}
+	collectConsts()
 	snap := map[string]string{}
 	if *snapshot != "" {
 		if b, err := os.ReadFile(*snapshot); err == nil {
@@ -443,6 +633,10 @@ func main() {
 			}
 			fmt.Fprintf(os.Stderr, "gokernel: kernel %s: %v (and no snapshot definition)\n", k.name, err)
 			os.Exit(1)
+		}
+		defLine := def[strings.LastIndex(def, "\n")+1:]
+		if s, ok := snap[k.name]; ok && s[strings.LastIndex(s, "\n")+1:] == defLine {
+			def = s // same definition (only the quoted Go text in the doc comment moved): keep Gen.lean byte-identical
 		}
 		out.WriteString(def + "\n")
 		if s, ok := snap[k.name]; ok && s == def {
